@@ -134,7 +134,7 @@ def conv_like_dataset(ds, raw_ranking):
     """values of a raw ranking converted the way the dataset homogenised its elements (int-like strings -> int)."""
     types = {e.type for e in ds.universe}
     if types == {int}:
-        return [[int(x) if str(x).isdigit() else x for x in b] for b in raw_ranking]
+        return [[int(x) if str(x).isdecimal() else x for x in b] for b in raw_ranking]
     return [[str(x) for x in b] for b in raw_ranking]
 
 
